@@ -95,7 +95,7 @@ def arr_queries(tier):
                             if op in A_TWO and not quick: name += '/b%d' % bcap
                             if narg is not None: d['NARG'] = narg; name += '/n%d' % narg
                             if init is not None: d['INIT'] = init; name += '/i%d' % init
-                            big = max(cap, bcap if op in A_TWO else 0, narg or 0)
+                            big = max(cap + (bcap if op in A_TWO else 0), narg or 0)
                             b = {'Copy': max(cap, bcap if op in A_TWO else 1) * esz + 1, '.*': big + 2}
                             kf = A_KF.get(op)
                             twin = kf is not None and cap >= 1 and (not quick or cap == 2)
@@ -195,7 +195,8 @@ def view_queries(tier):
                 for blen in ((2,) if quick else (0, 1, 2, 3)):
                     d = {'CHAR': ch, 'KIND': kind, 'LEN': ln, 'OP': code, 'BLEN': blen}
                     name = 'view/%s/%s/k%dl%d' % (ch, op, kind, ln) + ('' if quick else '/b%d' % blen)
-                    Q(qs, name, 'C14_view.cpp', 'h_view', d, bounds={'.*': max(ln, blen) + 2}, timeout=120, mem_gb=8)
+                    # cadical: MiniSat (the 'sat' default) hangs on view/char16_t/copy_assign/k1l2 although the instance is tiny
+                    Q(qs, name, 'C14_view.cpp', 'h_view', d, bounds={'.*': max(ln, blen) + 2}, backend='cadical', timeout=120, mem_gb=8)
     return qs
 
 def queries(tier):
